@@ -283,15 +283,43 @@ def _(a, b, labels):
     with fresh_axes() as ax:
         P.wasserstein_matching(a, b, P.wasserstein(a, b, matching=True)[1], labels=labels, ax=ax)
         return [s1, axes_summary(ax)]
+class ArgumentModified(Exception):
+    pass
+
+
+def unchanged(before, obj, what):
+    if arr_snapshot(obj) != before:
+        raise ArgumentModified(what)
+
+
 @entry("matching plots", ("dgmspread", "dgmspread"))
 def _(a, b):
     d, m = P.wasserstein(a, b, matching=True)
+    m0 = arr_snapshot(m)
     with fresh_axes() as ax:
         P.wasserstein_matching(a, b, m, ax=ax)
         s1 = axes_summary(ax)
+    unchanged(m0, m, "matching array passed to wasserstein_matching")
     with fresh_axes() as ax:
         P.bottleneck_matching(a, b, m, ax=ax)       # any (k,3) matching array is drawable
+        unchanged(m0, m, "matching array passed to bottleneck_matching")
         return [s1, axes_summary(ax)]
+@entry("matching plots(diagrams with essential classes)", ("dgm", "dgm"))
+def _(a, b):
+    # the matching indexes the finite points only; the plotters receive the full diagrams (essential classes at any row)
+    out = []
+    for dist, plot in ((P.wasserstein, P.wasserstein_matching), (P.bottleneck, P.bottleneck_matching)):
+        d, m = dist(a, b, matching=True)
+        m0 = arr_snapshot(m)
+        for _ in range(2):              # the same figure is often drawn twice (once to look at it, once to save it)
+            with fresh_axes() as ax:
+                try:
+                    plot(a, b, m, ax=ax)
+                    out.append(axes_summary(ax))
+                except (IndexError, ValueError) as e:
+                    out.append("rejected:" + type(e).__name__)
+            unchanged(m0, m, "matching array passed to " + plot.__name__)
+    return out
 @entry("landscape plots", ("dgmpos",))
 def _(a):
     from persim.landscapes import PersLandscapeExact as E, PersLandscapeApprox as A, plot_landscape_simple, plot_landscape
@@ -449,6 +477,11 @@ def run_case(ctx, k, rng):
             with warnings.catch_warnings():
                 warnings.simplefilter("ignore")
                 res = f(*args)
+        except ArgumentModified as e:
+            ctx.set_payload({"entry": name, "args": args, "modified": str(e)})
+            ctx.check("no argument is modified by the call", False, entry=name, forms=forms, modified=str(e))
+            program.append((name, picks))
+            continue
         except (TypeError, AttributeError, ValueError, IndexError, KeyError) as e:
             if any(fm in ("list", "int", "float32") for fm in forms):
                 ctx.note("form not accepted:" + name)
